@@ -137,9 +137,19 @@ func (eng *Engine) buildVCWith(fn *ssa.Function, con *Contract, key string) (vc 
 		v := Val{n, fv.Type(), k}
 		vc.regs[fv] = v
 		vc.assume(vc.typeFacts(v))
-		if _, isPtr := fv.Type().Underlying().(*types.Pointer); isPtr {
+		if pt, isPtr := fv.Type().Underlying().(*types.Pointer); isPtr {
 			vc.assume(sNot(sEq(n, "0")))
 			vc.paramVals["&"+fv.Name()] = v
+			// in contracts the captured variable's name denotes its content (at entry)
+			a := vc.addrOfRef(n, fv.Type())
+			if a.kind == aBox {
+				k2 := vc.sorts.sortOf(pt.Elem())
+				cv := Val{vc.define("cap_"+fv.Name(), k2, vc.load(a)), pt.Elem(), k2}
+				vc.paramVals[fv.Name()] = cv
+				vc.assume(vc.typeFacts(cv))
+				vc.assume(vc.regimeFacts(cv.S, pt.Elem(), 0))
+				vc.assumeTypeInv(cv, false)
+			}
 		}
 		vc.freeVars = append(vc.freeVars, fv)
 	}
@@ -170,6 +180,12 @@ func (eng *Engine) buildVCWith(fn *ssa.Function, con *Contract, key string) (vc 
 			vc.flushSide(env)
 			vc.assume(t)
 		}
+		for _, as := range vc.con.Assumes {
+			t := env.boolExpr(as.Expr)
+			vc.flushSide(env)
+			vc.assume(t)
+			vc.trustedUsed["assumed at entry of "+vc.key+": "+as.Src] = true
+		}
 		if vc.con.Pure {
 			vc.frameAll = false
 		} else if vc.con.HasMod {
@@ -192,6 +208,9 @@ func (eng *Engine) buildVCWith(fn *ssa.Function, con *Contract, key string) (vc 
 
 // script renders the SMT-LIB query for an obligation.
 func (vc *FnVC) script(o *Obligation, getModel bool) string {
+	if o.Evaluated {
+		return "; decided by direct evaluation: " + o.Name + "\n" + o.Model + "\n"
+	}
 	var b strings.Builder
 	b.WriteString(vc.sorts.header())
 	for _, d := range vc.decls {
